@@ -10,6 +10,7 @@ PROPS_FILE = 'coq/Props/C12.v'
 RUN_MODULE = 'QCE.C12.Run'
 COQ_HEADER = 'From QCE Require Import C12.Model.\nFrom Gen Require Import Kernels.'
 IMPL = 'harness/impl/c12_impl.py'
+REPEAT_REVERSED = True     # every case is evaluated twice per run, the second time in reversed order in the same processes
 SHARD = 150
 TRUSTED = ['Gen/Kernels.v is regenerated from kernel_repetition_code.py / kernel_calibration.py / intrf_index_strategy.py / '
            'intrf_index_kernel.py / intrf_stabilizer_index_kernel.py on every run (method bodies translated; the two kernel-building '
